@@ -206,6 +206,7 @@ class PyModule(object):
         Nested lookups search the whole body of the enclosing def (any depth
         of if/try/with), not only its top level."""
         node = self.tree
+        by_role = False
         for i_part, part in enumerate(qualname.split('.')):
             if i_part == 0:
                 part = self.current_name(part)
@@ -229,9 +230,13 @@ class PyModule(object):
                     found = nested[0]
                 else:
                     found = self._helper_by_role(node, nested)
+                if found is not None:
+                    by_role = True
             if found is None and i_part == 0:
                 # a definition that was moved to another module of the package and is imported here under its name
                 found = self._imported_def(part)
+            if found is None and i_part > 0 and by_role and isinstance(node, (ast.FunctionDef, ast.AsyncFunctionDef)):
+                found = node            # closures that were merged: the helper found by role is the innermost there is
             if found is None:
                 if required:
                     raise AnalysisError('%s: definition %r not found' % (self.rel, qualname))
@@ -276,6 +281,8 @@ class PyModule(object):
             return rec[0]
         if rec:
             return None
+        if not nested and calls_self(entry):
+            return entry            # the entry point recurses itself (its closure was merged into it)
         called = set()
         for n in ast.walk(entry):
             if isinstance(n, ast.Call):
